@@ -30,14 +30,13 @@ import (
 )
 
 type Config struct {
-	Name        string                                      // unique per check
-	N           int                                         // cases are 0..N-1
-	Only        []int                                       // if non-nil: run just these indices (replay)
-	Run         func(i int, p *vr.Partial)                  // child side: execute case i
+	Name        string                                          // unique per check
+	N           int                                             // cases are 0..N-1
+	Only        []int                                           // if non-nil: run just these indices (replay)
+	Run         func(i int, p *vr.Partial)                      // child side: execute case i
 	Crash       func(i int, kind, detail string, p *vr.Partial) // parent side: case i killed the child; kind = oom | fatal | panic | timeout | signal
-	MemLimitKB  int                                         // ulimit -v for the child (0 = unlimited)
-	CaseTimeout time.Duration                               // watchdog per case (0 = 120 s); harness protection, not an oracle
-	Checkpoint  int                                         // executed cases between checkpoints (0 = 1024)
+	MemLimitKB  int                                             // ulimit -v for the child (0 = unlimited)
+	CaseTimeout time.Duration                                   // watchdog per case (0 = 120 s); harness protection, not an oracle
 }
 
 type ckpt struct {
@@ -46,6 +45,9 @@ type ckpt struct {
 }
 
 const envName = "VERIF_CASERUN"
+
+// OnChildExit, if set, runs in the child just before it exits normally (profiling hooks).
+var OnChildExit func()
 
 // Dir returns a work directory for the cases of this child (inside the parent's scratch, which
 // the parent removes); in a non-child process it returns r.Scratch().
@@ -61,9 +63,6 @@ func InChild() bool { return os.Getenv(envName) != "" }
 
 // Run executes the cases owned by shard sh and merges the results into p.
 func Run(r *vr.Run, sh vr.ShardInfo, p *vr.Partial, c Config) {
-	if c.Checkpoint <= 0 {
-		c.Checkpoint = 1024
-	}
 	if c.CaseTimeout <= 0 {
 		c.CaseTimeout = 120 * time.Second
 	}
@@ -72,6 +71,9 @@ func Run(r *vr.Run, sh vr.ShardInfo, p *vr.Partial, c Config) {
 			return // child of another runner in the same check
 		}
 		child(r, sh, c)
+		if OnChildExit != nil {
+			OnChildExit()
+		}
 		os.Exit(0)
 	}
 	dir := filepath.Join(r.Scratch(), fmt.Sprintf("caserun-%s-%d", c.Name, sh.Index))
@@ -113,7 +115,12 @@ func Run(r *vr.Run, sh vr.ShardInfo, p *vr.Partial, c Config) {
 			"CASERUN_ONLY="+only, "CASERUN_DIR="+dir, fmt.Sprintf("VERIF_SHARD=%d/%d", sh.Index, max(sh.Count, 1)), "VERIF_SHARD_OUT=/dev/null", "GOMAXPROCS=2", "GOTRACEBACK=single")
 		cmd.Stdout = nil
 		cmd.Stderr = ef
+		t0 := time.Now()
 		runErr := cmd.Run()
+		if os.Getenv("CASERUN_DEBUG") != "" {
+			pb, _ := os.ReadFile(progress)
+			fmt.Fprintf(os.Stderr, "caserun[%s/%d] child #%d ran %s err=%v progress=%d\n", c.Name, sh.Index, restarts, time.Since(t0).Round(time.Millisecond), runErr, binary.LittleEndian.Uint64(append(pb, make([]byte, 8)...)))
+		}
 		_ = ef.Close()
 		var ck ckpt
 		haveCk := false
@@ -236,6 +243,8 @@ func child(r *vr.Run, sh vr.ShardInfo, c Config) {
 			}
 		}
 	}
+	dbg := os.Getenv("CASERUN_DEBUG") != ""
+	tStart := time.Now()
 	p := vr.NewPartial()
 	start := 0
 	if f, err := os.Open(out); err == nil {
@@ -275,8 +284,12 @@ func child(r *vr.Run, sh vr.ShardInfo, c Config) {
 			}
 		}
 	}()
+	if dbg {
+		fmt.Fprintf(os.Stderr, "caserun child: setup %s, resume at %d\n", time.Since(tStart).Round(time.Millisecond), start)
+	}
 	var buf [8]byte
 	done := 0
+	lastSave, interval := time.Now(), 50*time.Millisecond
 	for i := start; i < c.N; i++ {
 		if !sh.Owns(i) || skip[i] || (only != nil && !only[i]) {
 			continue
@@ -293,8 +306,11 @@ func child(r *vr.Run, sh vr.ShardInfo, c Config) {
 		cur.Store(int64(i + 1))
 		c.Run(i, p)
 		done++
-		if done%c.Checkpoint == 0 {
+		// checkpoint by time (a death loses at most ~interval of work), never spending more than ~5% on it
+		if now := time.Now(); now.Sub(lastSave) >= interval {
 			save(i + 1)
+			interval = max(50*time.Millisecond, 20*time.Since(now))
+			lastSave = time.Now()
 		}
 	}
 	cur.Store(0)
